@@ -151,6 +151,12 @@ func (r *run) doCase(ctx sdk.Context, p amm.PoolInfo, o amm.Op, gh *ghost, mustO
 	if err == nil {
 		switch o.Kind {
 		case "swap":
+			if strings.Contains(o.Tag, "cross") {
+				r.st.Count("swap:cross-one-tick-and-stop-just-beyond")
+				if pre.CurrentTickLiquidity != post.CurrentTickLiquidity {
+					r.st.Count("swap:cross-one-tick-with-liquidity-change")
+				}
+			}
 			if pre.CurrentTickLiquidity != post.CurrentTickLiquidity || crossedStored(r, ctx, p, pre.CurrentTick, post.CurrentTick) {
 				r.st.Count("swap:crossed-initialised-tick")
 				for _, q := range r.w.PositionsSorted(ctx, p) {
